@@ -1,6 +1,6 @@
 (** C02 — fact search returns exactly the stored facts that match.
     Property theorems only; proofs in proofs/StateProofs.v, proofs/Match*.v. *)
-From Verif Require Import Json Outcome Match PatIndex State MatchSpec MatchProofs StateSpec StateProofs.
+From Verif Require Import Json Outcome Match PatIndex State MatchSpec MatchProofs StateSpec StateProofs PendingProofs.
 
 (** The inverted index is a superset index in every reachable state: for
     every history of add / overwrite / remove / get / search / dispatch /
@@ -44,7 +44,8 @@ Proof.
     destruct (proj1 (Hiff b) (or_introl eq_refl)) as (_ & _ & _ & Hlay).
     unfold fragment in Hf. repeat (apply andb_prop in Hf; destruct Hf as [Hf ?]).
     eapply (terms_subset pattern fact b); eauto. }
-  destruct (search_exact s pattern now Hk Hwf Hsup Hne Hterms Hok Hsub) as (r1 & r2 & H1 & H2 & H3).
+  assert (Hpend : st_pending s = []) by apply pending_empty_reachable.
+  destruct (search_exact s pattern now Hk Hwf Hsup Hne Hpend Hterms Hok Hsub) as (r1 & r2 & H1 & H2 & H3).
   destruct r1 as [f1| | |], r2 as [f2| | |]; try contradiction.
   exists f1, f2. auto.
 Qed.
@@ -56,9 +57,11 @@ Theorem matching_fact_contains_pattern_terms : forall p fact b,
   forall t, In t (extract_terms p) -> In t (extract_terms fact).
 Proof. exact terms_subset. Qed.
 
-(** get returns the value last written under an id, or not-found. *)
+(** get returns the value last written under an id, or not-found (in a state
+    with no purge pending: the list of noted expired ids is empty between any
+    two operations, see [no_purge_left_pending]). *)
 Theorem get_last_write : forall s id now,
-  st_wf s ->
+  st_wf s -> st_pending s = [] ->
   match alookup id (st_facts s) with
   | Some fact => fact_expired fact now = false -> st_get s id now = (s, Ok fact)
   | None => st_get s id now = (s, Err "notfound")
@@ -76,3 +79,9 @@ Theorem ids_kept_and_add_visible : forall s given x now fresh aux s' id,
                alookup id (st_store s') = Some fact /\
                (forall j, j <> id -> alookup j (st_facts s') = alookup j (st_facts s)).
 Proof. exact add_visible. Qed.
+
+(** No purge is left pending by an operation: the list of the expired ids that
+    the readers noted (the repair of D52) is empty in every reachable state,
+    whatever the storage does. *)
+Theorem no_purge_left_pending : forall k hooks fail ops, st_pending (reachable k hooks fail ops) = [].
+Proof. exact pending_empty_reachable. Qed.
